@@ -108,6 +108,7 @@ type Engine struct {
 	mapOrderNondet bool
 	mapOrderMode int
 	mapOrderPrev int
+	pooled map[*Cell]bool
 	mapOrderDrawn bool
 	inputObjs map[int]bool
 	encOpts, decOpts map[string]*StructV
